@@ -303,12 +303,82 @@ SKIP = {"find_return_block_indices", "select_function_by_name", "version", "modu
         "extension", "ext_inst_import", "entry_point", "execution_mode", "execution_mode_id", "ext_inst", "string", "type_opaque"}
 
 
-def block_inst_contract(opexpr, opsexpr, pexpr):
-    return (END_BLOCK % {"P": pexpr}).replace("inst)) })),", "final_inst(*final(self), *old(self), %s))) }))," % pexpr)
+# generated terminator method: fails iff no block is selected; otherwise the block is closed with exactly this instruction at the insert point
+TERM_GEN = """requires old(self).wf(),
+        old(self).selected_block is Some ==> point_ok(%(P)s, sel_block_len(*old(self))),
+    ensures final(self).wf(), final(self).next_id == old(self).next_id,
+        final(self).selected_function == old(self).selected_function,
+        (r is Err) <==> (old(self).selected_block is None),
+        r is Err ==> ((dr::module_ext(final(self).view().module, old(self).view().module) && final(self).selected_block == old(self).selected_block) && r == Err::<(), Error>(Error::MismatchedTerminator)),
+        r is Ok ==> (final(self).selected_block is None
+            && ({ let f = old(self).selected_function->0 as int; let k = old(self).selected_block->0 as int;
+                  let oi = block_insts(old(self).view().module, f, k); let ni = block_insts(final(self).view().module, f, k);
+                  let at = point_pos(%(P)s, oi.len() as int);
+                  ni.len() == oi.len() + 1 && is_inst(ni[at], %(OP)s, None, None, %(OPS)s)
+                  && dr::module_ext(final(self).view().module, with_block_insts(old(self).view().module, f, k, oi.insert(at, ni[at])))})),"""
 
 
-def build(tier="quick", must_fail=False):
-    g = Gen(NAME if not must_fail else NAME + "_mustfail")
+def ops_expr(seq):
+    """spec expression of the operand vector a lifted method builds (One / ZeroOrOne entries only)"""
+    base = "seq![%s]" % ", ".join("dr::Operand::%s(%s)" % (v, p) for q, v, p in seq if q == "One")
+    if not any(q == "One" for q, v, p in seq):
+        base = "Seq::<dr::Operand>::empty()"
+    for q, v, p in seq:
+        if q == "ZeroOrOne":
+            base = "(%s + (match %s { Some(ov) => seq![dr::Operand::%s(ov)], None => Seq::<dr::Operand>::empty() }))" % (base, p, v)
+    return base
+
+
+def emit_generated(g, emit_fn, must_fail, shard):
+    from .lift_builder import lift_all
+    ms = [m for m in lift_all() if m["file"] in (TYPES, TERM)]
+    byname = {m["name"]: m for m in ms}
+    n_type = n_term = n_skip = 0
+    g.raw("impl Builder {")
+    for fpath in (TYPES, TERM):
+        gsrc = Source.get(fpath)
+        for imp in gsrc.find_all("impl", lambda i: i.impl_of == "Builder"):
+            for f in imp.children:
+                if f.kind != "fn":
+                    continue
+                base = f.name + "_id" if (fpath == TYPES and not f.name.endswith("_id")) else f.name
+                m = byname.get(base)
+                if m is None or any(q not in ("One", "ZeroOrOne") for q, v, p in m["seq"]) or any("into()" in f.core_text for _ in [0]) and False:
+                    n_skip += 1
+                    continue
+                if any(v is None or v.startswith("Pair:") for q, v, p in m["seq"]):
+                    n_skip += 1
+                    continue
+                if must_fail and ((n_type + n_term) >= 1 or not f.name.endswith("_id")):
+                    continue
+                OP = "spirv::Op::" + m["op"]
+                OPS = ops_expr(m["seq"])
+
+                def edit(p, OPS=OPS, is_id=f.name.endswith("_id"), fpath=fpath):
+                    p.sub(r"#\[allow\(unused_mut\)\]", "", "R12", required=False)
+                    if fpath == TYPES and is_id:
+                        p.insert_at("if let Some(result_id) = result_id {", "proof { assert(inst.operands@ =~= %s); }\n        " % OPS, where="before", nth=1, tag="ghost")
+                if fpath == TYPES:
+                    c = TYPE3 % {"OP": OP, "OPS": OPS}
+                    if not f.name.endswith("_id"):
+                        c = c.replace("result_id matches Some(v)", "None::<u32> matches Some(v)").replace("result_id is None", "None::<u32> is None")
+                    n_type += 1
+                else:
+                    P = "insert_point" if f.name.startswith("insert_") else "InsertPoint::End"
+                    c = TERM_GEN % {"P": P, "OP": OP, "OPS": OPS}
+                    n_term += 1
+                if must_fail:
+                    c = c.replace("ensures final(self).wf(),", "ensures final(self).wf(), false,", 1)
+                emit_fn(f, c, "r", edit)
+    g.raw("}")
+    g.n_type, g.n_term, g.n_skip = n_type, n_term, n_skip
+
+
+def build(tier="quick", must_fail=False, gen=False, shard=None):
+    """gen=True (unit builder_gen): the hand-written methods are contract-only stubs (proved in unit builder_core) and the
+    GENERATED type and terminator methods with fixed / optional operands are verified against TYPE3 / TERM_GEN"""
+    uname = "builder_gen" if gen else NAME
+    g = Gen(uname if not must_fail else uname + "_mustfail")
     src = Source.get(FILE)
     g.raw(HEADER)
     g.raw("verus! {")
@@ -343,9 +413,15 @@ def build(tier="quick", must_fail=False):
         if not f.core_text.startswith("pub"):
             p.sub(r"^fn ", "pub fn ", "R15", count=1)
         p.add_contract("    " + contract)
+        if gen and stub_mode[0]:
+            g.raw("#[verifier::external_body] // contract proved in unit builder_core")
+            g.emit(p, name="dr::build::Builder::" + f.name, under_contract=False)
+            return
         g.contract_clauses += count_clauses(contract)
         g.emit(p, name="dr::build::Builder::" + f.name)
         fns_done.append(f.name)
+
+    stub_mode = [gen]
 
     def generic_edit(name):
         def e(p):
@@ -374,11 +450,13 @@ def build(tier="quick", must_fail=False):
         for f in imp.children:
             if f.kind != "fn" or f.name in SKIP:
                 continue
-            if must_fail and f.name not in want_mf:
+            if must_fail and not gen and f.name not in want_mf:
+                continue
+            if gen and f.name not in C:
                 continue
             if f.name in C:
                 rn, c = C[f.name]
-                if must_fail and f.name == "insert_into_block":
+                if must_fail and not gen and f.name == "insert_into_block":
                     c = c.replace("ensures final(self).wf(),", "ensures final(self).wf(), false,", 1)
                 edit = None
                 if f.name == "dedup_insert_type":
@@ -404,6 +482,9 @@ def build(tier="quick", must_fail=False):
                     emit_fn(f, DEFAULT, "r", edit)
                     n_default += 1
     g.raw("}")
+    if gen:
+        stub_mode[0] = False
+        emit_generated(g, emit_fn, must_fail, shard)
     g.raw("pub fn expect_some<T>(o: Option<T>, msg: &str) -> (r: T) requires o is Some, ensures Some(r) == o { o.unwrap() }")
     g.raw("// `.expect(msg)` on a Result: std panics exactly when it is Err\n#[verifier::external_body]\n"
           "pub fn expect_ok<T>(o: result::Result<T, Error>, msg: &str) -> (r: T) requires o is Ok, ensures Ok::<T, Error>(r) == o { unimplemented!() }")
